@@ -259,12 +259,14 @@ fn gen_case(rng: &mut Rng, report: &mut Report) -> Vec<Op> {
         if r < 40 || registered.is_empty() {
             let p = 1 + rng.below(npaths as u64) as u32;
             let a = gen_ts(rng, class);
-            let span = match rng.below(6) {
+            let span = match rng.below(7) {
                 0 => 0,
                 1 => 1,
                 2 => H,
                 3 => rng.range_i64(0, 3 * H),
                 4 => rng.range_i64(24 * H, 80 * H),
+                // more than a week / a month: a merged chunk of a sparse series
+                5 => rng.range_i64(160 * H, 800 * H),
                 _ => rng.range_i64(0, H - 1),
             };
             let span = if class == 3 { span.min(3 * H) } else { span };
@@ -297,6 +299,16 @@ fn gen_case(rng: &mut Rng, report: &mut Report) -> Vec<Op> {
             report.bump("op.complete");
         } else if r < 95 {
             let a = gen_ts(rng, class);
+            // a point query near the END of some registered long chunk (beyond its first week)
+            if rng.chance(1, 6) {
+                if let Some(Op::R { min, max, .. }) = ops.iter().rev().find(|o| matches!(o, Op::R { min, max, .. } if max.saturating_sub(*min) > 160 * H)) {
+                    let t = max.saturating_sub(rng.range_i64(0, 2 * H)).max(*min);
+                    ops.push(Op::Q { s: t, e: t.saturating_add(rng.range_i64(0, H)) });
+                    report.bump("query.tail_of_long_chunk");
+                    report.bump("op.query");
+                    continue;
+                }
+            }
             let (s, e) = match rng.below(8) {
                 0 => (a, a),                                  // zero-length
                 1 => (a, a.saturating_sub(rng.range_i64(1, 2 * H))), // inverted
@@ -346,6 +358,8 @@ fn corpus() -> Vec<Vec<Op>> {
         vec![r(1, 0, 10), r(2, 20, 30), r(3, 0, 30), Op::C { tgt: 3, srcs: vec![1, 2] }, Op::Q { s: 0, e: 100 }, Op::C { tgt: 9, srcs: vec![3] }, Op::Q { s: 0, e: 100 }, Op::C { tgt: 3, srcs: vec![3] }, Op::Q { s: 0, e: 100 }, Op::L],
         // last and first representable hour buckets (the bucket loop overflowed i64 before the fix)
         vec![r(1, i64::MAX - 5, i64::MAX), r(2, i64::MIN, i64::MIN + 5), Op::Q { s: i64::MAX, e: i64::MAX }, Op::Q { s: i64::MIN, e: i64::MIN }, Op::Q { s: i64::MIN, e: i64::MAX }, Op::D { p: 1 }, Op::Q { s: 0, e: i64::MAX }, Op::L],
+        // a chunk spanning more than a week / a month is found from a window near its end
+        vec![r(1, 0, 9 * 24 * H), r(2, 5, 40 * 24 * H), Op::Q { s: 9 * 24 * H - 10, e: 9 * 24 * H }, Op::Q { s: 39 * 24 * H, e: 39 * 24 * H + 5 }, Op::Q { s: 8 * 24 * H, e: 8 * 24 * H }],
         // end-point inclusivity
         vec![r(1, 100, 200), Op::Q { s: 200, e: 300 }, Op::Q { s: 201, e: 300 }, Op::Q { s: 0, e: 100 }, Op::Q { s: 0, e: 99 }],
     ]
